@@ -108,3 +108,55 @@ func derivesOnlyFrom(v, key ssa.Value) bool {
 	}
 	return false
 }
+
+// c15TokenListsNotAppendedTo (R9): the tokens of a declaration belong to the parsed style sheet: they are shared by
+// every element the rule matches and by every document rendered with the same sheet.  The Arguments list of a
+// function token is read, never extended in place: in html/tree and css/validation no append has for base a list
+// that derives (through re-slicing such as `fn.Arguments[:0]`, and merges) from the Arguments field of a token.
+// (resolveVar with `arguments := fn.Arguments[:0]` wrote the values of the first element's custom properties into
+// the sheet: every later element and document got them.)
+func c15TokenListsNotAppendedTo(c *core.Check) {
+	p := c.Prog
+	r := c.Rule("R9", "the token lists of the style sheet are not extended in place: in html/tree and css/validation, in every function that reads the Arguments field of a token, no append has a base that derives (re-slices and merges included) from that field", 13)
+	n := 0
+	for _, pkg := range []string{"html/tree", "css/validation"} {
+		for _, fn := range p.FuncsOfPkg(pkg) {
+			fn := fn
+			reads := false
+			core.Instrs(fn, func(in ssa.Instruction) {
+				switch x := in.(type) {
+				case *ssa.FieldAddr:
+					if core.FieldName(x) == "Arguments" {
+						reads = true
+					}
+				case *ssa.Field:
+					if core.IsFieldNamed(x, "Arguments") {
+						reads = true
+					}
+				}
+			})
+			if !reads {
+				continue
+			}
+			k := 0
+			core.Instrs(fn, func(in ssa.Instruction) {
+				call, ok := in.(*ssa.Call)
+				if !ok {
+					return
+				}
+				b, ok := call.Call.Value.(*ssa.Builtin)
+				if !ok || b.Name() != "append" || len(call.Call.Args) == 0 {
+					return
+				}
+				k++
+				n++
+				key := fmt.Sprintf("%s | append #%d", core.FuncName(fn), k)
+				shared := core.DerivesFrom(call.Call.Args[0], func(v ssa.Value) bool { return core.IsFieldNamed(v, "Arguments") })
+				r.Cond(!shared, key, p.Pos(call.Pos()), "the base of the append is a list of the function's own", "the base of the append is (a re-slice of) the Arguments of a token: the append writes into the array of the parsed style sheet, shared by every element and every render")
+			})
+		}
+	}
+	if n == 0 {
+		r.Anchor("appends in functions reading token arguments")
+	}
+}
